@@ -474,26 +474,25 @@ func c19Run(w *run.Worker) {
 	if w.Shard == 0 {
 		w.Note("valid_param_lists", int64(len(valid)))
 	}
-	nshapes := int64(0)
-	for _, ps := range valid {
-		ps := ps
-		c19Shapes(5, func(args []c19Arg) {
-			nshapes++
+	// shape-major order: consecutive loads (also within one worker's share) are the SAME call text
+	// against DIFFERENT parameter lists — what a cache keyed by text would confuse
+	c19Shapes(5, func(args []c19Arg) {
+		ca := append([]c19Arg(nil), args...)
+		for _, ps := range valid {
 			if !w.Take() {
-				return
+				continue
 			}
 			w.Eval()
-			ca := append([]c19Arg(nil), args...)
 			key, what, out := c19CheckCall(ps, ca)
 			w.Outcome(out)
-			if w.WantSample() && len(ca) == 3 && len(ps) == 3 {
+			if w.WantSample() && len(ca) == 3 && len(ps) == 3 && w.Index()%977 == 0 {
 				w.Sample(map[string]any{"params": c19Fmt(ps), "call": c19Src(ca), "outcome": out})
 			}
 			if key != "" {
 				w.Violate(key, what, c19Case{Params: ps, Args: ca, Src: c19Src(ca), Part: "call"})
 			}
-		})
-	}
+		}
+	})
 }
 
 func c19Replay(raw json.RawMessage) (bool, string) {
